@@ -3,6 +3,7 @@ package main
 import (
 	"context"
 	"fmt"
+	"math/rand"
 	"os"
 	"reflect"
 	"runtime"
@@ -787,6 +788,83 @@ func (b *bb) scenarioDynamic() {
 	b.leakProbe("Stop of v1 priority after AddInput/RemoveInput")
 	b.note("dynamic", fmt.Sprintf("H=%d", H), before)
 	b.dynamicLate()
+	b.dynamicGraceful()
+}
+
+// AddInput / RemoveInput around a graceful stop (v1): an input added while a GracefulStop() is
+// pending is served like any other (C02, C17); a discipline whose inputs have all been removed
+// terminates gracefully at once (C07, C17)
+func (b *bb) dynamicGraceful() {
+	before := b.fails()
+	H := uint(1 + b.r.Intn(4))
+	ctx, cancel := context.WithCancel(context.Background())
+	defer cancel()
+	output := make(chan p1.Prioritized[int])
+	feedback := make(chan uint, int(H))
+	base := make(chan int, 4)
+	dsc, err := p1.New(p1.Opts[int]{Ctx: ctx, Divider: p1.FairDivider, Feedback: feedback, HandlersQuantity: H,
+		Inputs: map[uint]<-chan int{1: base}, Output: output})
+	if err != nil {
+		b.fail("C17 v1 New failed: %v", err)
+		return
+	}
+	mode := []string{"add-while-graceful", "all-removed", "all-removed-then-graceful"}[b.cycle("dyn-graceful", 3)]
+	returned := make(chan struct{})
+	const n = 3
+	got := 0
+	switch mode {
+	case "add-while-graceful":
+		go func() { dsc.GracefulStop(); close(returned) }()
+		time.Sleep(time.Duration(200+b.r.Intn(800)) * time.Microsecond) // the stop is pending: input 1 is open
+		late := make(chan int, n)
+		for i := 0; i < n; i++ {
+			late <- 200000 + i
+		}
+		close(late)
+		added := make(chan struct{})
+		go func() { dsc.AddInput(late, 2); close(added) }()
+		select {
+		case <-added:
+		case <-time.After(5 * time.Second):
+			b.fail("C17 graceful: AddInput did not return within 5s while a GracefulStop() was pending")
+		}
+		close(base)
+	case "all-removed":
+		go func() {
+			dsc.GracefulStop()
+			close(returned)
+		}()
+		time.Sleep(time.Duration(200+b.r.Intn(800)) * time.Microsecond)
+		dsc.RemoveInput(1) // the channel stays open; nothing is registered any more
+	case "all-removed-then-graceful":
+		dsc.RemoveInput(1)
+		go func() { dsc.GracefulStop(); close(returned) }()
+	}
+	deadline := time.After(10 * time.Second)
+loop:
+	for {
+		select {
+		case it := <-output:
+			if it.Priority == 2 {
+				got++
+			}
+			feedback <- it.Priority
+		case <-returned:
+			break loop
+		case <-deadline:
+			b.fail("C07 graceful (%s): GracefulStop() did not return within 10s although every registered input is closed and drained (or none is registered) and everything is released (H=%d)", mode, H)
+			if mode != "add-while-graceful" {
+				b.fail("C17 graceful (%s): RemoveInput(1) returned, no input is registered any more, but GracefulStop() did not return within 10s: the removal has not taken effect for the termination test (H=%d)", mode, H)
+			}
+			break loop
+		}
+	}
+	if mode == "add-while-graceful" && got != n {
+		b.fail("C02 graceful: AddInput(ch, 2) returned while a GracefulStop() was pending, the discipline terminated, but only %d of the %d items written to ch before it was closed were delivered (H=%d)", got, n, H)
+	}
+	cancel()
+	b.leakProbe("graceful termination of v1 priority (" + mode + ")")
+	b.note("dynamic", "graceful "+mode, before)
 }
 
 // a producer registers its (last) channel and asks for a graceful stop right afterwards, while
@@ -893,10 +971,13 @@ func (b *bb) scenarioFaulty() {
 	after := int32(3 + b.r.Intn(12))
 	var calls, fired int32
 	kind := []string{"over", "under"}[b.r.Intn(2)] // an all-zero result is exempt (C15: "non-zero added total")
+	// (the divider is called from the discipline's goroutine: it gets its own random source)
+	cr := rand.New(rand.NewSource(b.r.Int63()))
+	graceful := b.r.Intn(2) == 0
 	corrupt := func(prios []uint, dist map[uint]uint) {
 		switch kind {
 		case "over":
-			dist[prios[0]] += 1 + uint(b.r.Intn(2))
+			dist[prios[0]] += 1 + uint(cr.Intn(2))
 		case "under":
 			// keep the result non-zero: an all-zero total is exempt from the property
 			total := uint(0)
@@ -1033,7 +1114,6 @@ func (b *bb) scenarioFaulty() {
 				return
 			}
 			startProducers()
-			graceful := b.r.Intn(2) == 0
 			if graceful {
 				// a graceful stop is pending when the divider breaks its contract (with it, a normal
 				// termination before the fault ever fires is possible: only a fault that did fire
